@@ -215,6 +215,7 @@ PROPS = {
         assumptions=["a crash is a process kill between two file-system calls"],
         essential_classes=["op:set", "op:save-entity", "op:delete-entity", "op:transport-start", "op:first-start-on-empty-storage", "transport:structure-changed", "old:absent", "new-shorter", "new-longer", "regress"],  # op:set(traced) is reported but not essential: strace may be unavailable in a sandbox
         jobs=[
+            dict(test="TestC19Unprivileged", kind="plain"),
             dict(test="TestC19FirstStart", kind="plain"),
             dict(test="TestC19Regress", kind="plain"),
             dict(test="TestC19Prop", kind="rapid", checks={Q: 12, T: 300}, shards=12),
